@@ -5,7 +5,7 @@ sys.path.insert(0, os.path.dirname(os.path.abspath(__file__)))
 import lib, check, registry
 fam = registry.FAMILIES[sys.argv[1]]
 tier = sys.argv[2] if len(sys.argv) > 2 else 'quick'
-prop = sys.argv[3] if len(sys.argv) > 3 else '?'
+prop = sys.argv[3] if len(sys.argv) > 3 else 'ALL'
 if os.environ.get('NOBUILD') != '1':
     b = lib.build()
     print('build: translate_ok=%s failed=%s model_ok=%s %s' % (b.translate_ok, b.failed_files, b.model_ok, b.model_msg[-500:]))
@@ -17,7 +17,9 @@ print({k2: v for k2, v in s.items() if k2 not in ('samples', 'rule')})
 for x in d[:int(os.environ.get('SHOW', '5'))]:
     print('DISAGREE', json.dumps(x['case'])[:1500]); print('  model:', x['model'][:1500]); print('  impl :', x['impl'][:1500])
     if x.get('trace'): print(x['trace'])
-for x in f[:5]:
+import collections
+print('signatures:', collections.Counter(x['signature'] for x in f), 'known:', collections.Counter(kk['signature'] for kk, e in k))
+for x in f[:int(os.environ.get('SHOWF', '3'))]:
     print('ORACLE-FAIL', x['signature'], x['what'], json.dumps(x['case'])[:800])
 for (kk, e) in k[:3]:
     print('KNOWN', kk['signature'], json.dumps(e['case'])[:300])
